@@ -23,7 +23,7 @@ func runAsmDomain(domain string, out *bufio.Writer, rng *rand.Rand, thorough boo
 	case "listing":
 		genListing(out, rng, cnt(3000, 200000))
 	default:
-		return false
+		return runHookDomain(domain, out, rng, cnt)
 	}
 	return true
 }
